@@ -4,7 +4,9 @@ Proof: Props/C15.v over Gen/Stats.v (regenerated from sigpyproc/core/stats.py + 
 tools/py2coq/gen_c15.py) and the NumPy-over-Q model Model/C15_np.v.  Correspondence: the generated Gallina
 (estimate_loc / estimate_scale / estimate_zscore, every method but biweight) under vm_compute versus the implementation on
 the same arrays, including which calls raise.  Oracle: the relations of the property in plain NumPy against the
-implementation (per-axis == per-lane, keepdims results broadcast, scale(a x + b) = |a| scale(x), zscore sign, finiteness).
+implementation (per-axis == per-lane, keepdims results broadcast, scale(a x + b) = |a| scale(x), zscore sign, finiteness;
+for a and -a on every array; the loc / scale fields of the Z-score result; scale method 'norm'; small-amplitude data; the
+block / time-series normalise methods along every axis and the affine invariance of the two RFI masks built on the Z-scores).
 """
 from __future__ import annotations
 
@@ -34,12 +36,18 @@ RT_LANE = 1e-9      # float64, same arithmetic on the same numbers in a differen
 RT_SCALE = 1e-6     # float64 estimate_scale under x -> a x + b: unit roundoff 1.1e-16 x (|b| + |a| max|x|) / (|a| spread) <= 1e4
 RT_Z = 1e-4         # estimate_zscore works on float32 data: 6e-8 x (offset / scale <= 1e2) x a few operations, 10x margin
 QUANT = 1.0 / 16    # data are multiples of 1/16: ties are exact, non-zero gaps are >= 1/16 (so no scale is "almost" zero)
+TINY = 2.0 ** -24   # amplitude of the "tiny/<kind>" arrays: the same multiples of 1/16 in units of 2**-24 (exact in float32); with
+#                     |a| = 2**-4 .. 2**-6 the MAD of a x + b is below 1e-8 while that of x is above it: an absolute "is the MAD zero"
+#                     threshold (np.isclose(mad, 0), repaired by 35a5e4f) makes mad / doublemad switch estimator under the map
+EPS32 = float(np.finfo(np.float32).eps)
 
 
 # ------------------------------------------------------------------------------------------------------------
 # data
 # ------------------------------------------------------------------------------------------------------------
 def gen_data(rng, shape, kind):
+    if kind.startswith("tiny/"):
+        return gen_data(rng, shape, kind[5:]) * TINY
     if kind.startswith("constlane/"):
         # "constlane/<axis>/<first|middle|last>/<kind of the other lanes>": one lane along <axis> is constant, the others are not
         _, ax, where, other = kind.split("/")
@@ -141,22 +149,39 @@ def oracle(R, stats):
             for r in range(1 if quick else 2):
                 plan.append((sh, f"constlane/{ax}/{where}/{others[(i + k + r) % len(others)]}"))
     rng.shuffle(plan)
-    amaps = []
+    # small-amplitude data (appended after the shuffle: the arrays above are those of earlier versions of this check for the same seed):
+    # the property is unit free, so the same relations are demanded of data in units of 2**-24 under maps that shrink them further
+    tiny_kinds = ["tiny/outliers", "tiny/normal", "tiny/skewed", "tiny/heavyties", "tiny/ties"]
+    tiny_shapes = [(9,), (16,), (8, 8), (9, 11), (12, 8)] if quick else shapes1 + shapes2 + degenerate
+    for i, sh in enumerate(tiny_shapes):
+        for r in range(1 if quick else 3):
+            plan.append((sh, tiny_kinds[(i + r) % len(tiny_kinds)]))
 
-    def new_map():
+    def new_map(tiny=False):
+        if tiny:       # |a| = 2**-4 .. 2**-6 (inside 1e-2 <= |a| <= 1e2), offsets of up to ~10 |a| sigma in the units of the data; all exact
+            a = rng.choice([-1.0, 1.0]) * 2.0 ** -rng.randrange(4, 7)
+            b = round(rng.gauss(0.0, 10.0) / QUANT) * QUANT * TINY * abs(a) if rng.random() < 0.8 else 0.0
+            return float(a), float(b)
         e = rng.uniform(-2.0, 2.0)
         a = rng.choice([-1.0, 1.0]) * 10.0 ** e
         if rng.random() < 0.3:
             a = rng.choice([-1.0, 1.0]) * 2.0 ** rng.randrange(-6, 7)      # exact scalings
         if rng.random() < 0.15:
             a = rng.choice([1e-2, -1e-2, 1e2, -1e2, 1.0, -1.0])
+        # offsets stay within ~30 |a| sigma: estimate_zscore works on the float32 cast of its input (see R.assume)
         b = round(rng.gauss(0.0, 10.0) * abs(a), 3) if rng.random() < 0.8 else 0.0
         return float(a), float(b)
 
     def fail(key, what, case):
         R.fail(key, what, case)
 
+    def bump(name, k=1):
+        R.hist[name] = R.hist.get(name, 0) + k
+
     for ci, (shape, kind) in enumerate(plan):
+        tiny = kind.startswith("tiny/")
+        amp = TINY if tiny else 1.0          # the unit of the data: absolute slacks are relative to it
+        tk = "-tiny" if tiny else ""
         x = gen_data(rng, shape, kind)
         if len(shape) == 2:      # the same values in other memory layouts: Fortran order, a transposed view, a read-only array
             lay = ci % 4
@@ -166,15 +191,19 @@ def oracle(R, stats):
                 x = np.ascontiguousarray(x.T).T
             elif lay == 3:
                 x = x.copy(); x.setflags(write=False)
-        a, b = new_map()
-        y = a * x + b
+        a, b = new_map(tiny)
+        # every array is mapped with both signs of a: a reflection exchanges the two sides of the order statistics, which is where
+        # asymmetric estimators (percentile pairs, one-sided MADs, gap weights) show; (a, b) alone would leave that to the draw
+        maps = [(a, b, a * x + b), (-a, b, (-a) * x + b)]
         axes = [None, 0] if len(shape) == 1 else [ax for ax in (None, 0, 1) if ax is None or shape[ax] >= 8]
         sx_spread = spread(x)
+        xmax = float(np.max(np.abs(x)))
+        atol = 1e-12 * (amp + xmax)
         for m in SCALES:
             for axis in axes:
                 base = {"shape": list(shape), "kind": kind, "method": m, "axis": axis, "a": a, "b": b, "x": tolist(x)}
-                regime = f"{m}/axis={axis}/{'1d' if len(shape) == 1 else ('deg' if 1 in shape else '2d')}"
-                R.case((ci, m, axis), nontrivial=kind != "const", regime=regime,
+                regime = f"{m}/axis={axis}/{'1d' if len(shape) == 1 else ('deg' if 1 in shape else '2d')}" + tk
+                R.case((ci, m, axis), nontrivial=not kind.endswith("const"), regime=regime,
                        sample={"shape": list(shape), "kind": kind, "method": m, "axis": axis, "a": a, "b": b} if ci < 2 and m == "mad" else None)
                 lanes = lanes_of(x, axis)
                 # ---- the 1-D estimator on each lane (the reference of "per lane") --------------------------------
@@ -191,7 +220,6 @@ def oracle(R, stats):
                     key = f"keepdims-squeeze-{m}" if (m in ("mad", "iqr") and 1 in shape) else f"exception-scale-{m}"
                     fail(key, f"estimate_scale raised {type(e).__name__}: {e}", base)
                     continue
-                atol = 1e-12 * (1.0 + float(np.max(np.abs(x))))
                 lanes_bad = False
                 if m == "doublemad":
                     full = np.empty(shape)
@@ -202,6 +230,7 @@ def oracle(R, stats):
                         if arr.shape != tuple(shape) or not close(arr, full, RT_LANE, atol):
                             fail(f"lanes-doublemad{nm}", "doublemad along the axis is not the 1-D doublemad of each lane",
                                  dict(base, got=tolist(arr), expected=tolist(full)))
+                    want_scale = full            # what ZScoreResult.scale must read at every sample (before the unit-scale fallback)
                 else:
                     exp = np.array([float(le) for le in lane_est])
                     lanes_bad = r.size != exp.size or not close(r.ravel(), exp, RT_LANE, atol)
@@ -209,6 +238,12 @@ def oracle(R, stats):
                         key = KEY_SN if m == "sn" else f"lanes-scale-{m}"
                         fail(key, "estimate_scale along the axis differs from the 1-D estimator of each lane (or of the flattened data)",
                              dict(base, got=tolist(r), expected=tolist(exp)))
+                    # the keepdims=False result is the array of the per-lane results: the input's shape without the reduced axis (a scalar for
+                    # axis=None; a single lane may also come back as a scalar) -- not, e.g., a column or a keepdims-style array
+                    lane_shape = () if (axis is None or len(shape) == 1) else (shape[1 - axis],)
+                    if not lanes_bad and r.shape != lane_shape and not (r.size == 1 and r.shape == ()):
+                        fail(f"shape-scale-{m}", "keepdims=False result does not have the shape of the per-lane results",
+                             dict(base, got_shape=list(r.shape), expected_shape=list(lane_shape)))
                     # ---- keepdims=True broadcasts against the input, lane by lane ---------------------------------
                     try:
                         bro = np.broadcast_to(rk, shape)
@@ -216,121 +251,226 @@ def oracle(R, stats):
                         fail(f"broadcast-scale-{m}", "keepdims=True result does not broadcast against the input",
                              dict(base, got_shape=list(rk.shape)))
                         bro = None
+                    full = np.empty(shape)
+                    for (pos, l), le in zip(lanes, lane_est):
+                        sel, vals = put_lane(shape, axis, pos, np.full(l.shape, float(le)))
+                        full[sel] = vals
+                    want_scale = full
                     if bro is not None:
-                        full = np.empty(shape)
-                        for (pos, l), le in zip(lanes, lane_est):
-                            sel, vals = put_lane(shape, axis, pos, np.full(l.shape, float(le)))
-                            full[sel] = vals
                         if not close(bro, full, RT_LANE, atol):
                             key = KEY_SN if m == "sn" else f"broadcast-scale-{m}"
                             fail(key, "keepdims=True result, broadcast to the input, is not the per-lane estimate",
                                  dict(base, got=tolist(rk), got_shape=list(rk.shape), expected=tolist(full)))
-                # ---- |a|-equivariance of the scale ---------------------------------------------------------------------
-                try:
-                    ry = np.asarray(stats.estimate_scale(y, m, axis, keepdims=True), dtype=np.float64)
-                except Exception as e:  # noqa: BLE001
-                    fail(f"exception-scale-{m}", f"estimate_scale(a x + b) raised {type(e).__name__}: {e}", base)
+                # ---- |a|-equivariance of the scale, for a and for -a ---------------------------------------------------
+                live = []
+                for a_, b_, y in maps:
+                    mbase = dict(base, a=a_, b=b_)
+                    try:
+                        ry = np.asarray(stats.estimate_scale(y, m, axis, keepdims=True), dtype=np.float64)
+                    except Exception as e:  # noqa: BLE001
+                        fail(f"exception-scale-{m}", f"estimate_scale(a x + b) raised {type(e).__name__}: {e}", mbase)
+                        continue
+                    live.append((a_, b_, y))
+                    sa = abs(a_) * max(sx_spread, 1e-300)
+                    # zero / negligible scales: absolute slack relative to the spread of the data; diffcov is the square root of
+                    # a signed sum, so its absolute error is sqrt(eps) x spread
+                    atol_s = (1e-6 if m == "diffcov" else 1e-11) * (sa + abs(b_) + abs(a_) * xmax)
+                    ok = ry.shape == rk.shape and bool(np.all(np.abs(ry - abs(a_) * rk) <= atol_s + RT_SCALE * abs(a_) * np.abs(rk)))
+                    if not ok and m == "doublemad" and a_ < 0 and ry.shape == rk.shape:
+                        loc = np.asarray(stats.estimate_loc(x, "median", axis, keepdims=True))
+                        off = np.abs(ry - abs(a_) * rk) > atol_s + RT_SCALE * abs(a_) * np.abs(rk)
+                        key = KEY_DM[0] if bool(np.all((x == loc)[off])) else "equivariance-scale-doublemad" + tk
+                        fail(key, "doublemad: scale(a x + b) != |a| scale(x) (a < 0; at samples equal to the median)" if key == KEY_DM[0]
+                             else "scale(a x + b) != |a| scale(x)", dict(mbase, scale_x=tolist(rk), scale_y=tolist(ry)))
+                    elif not ok:
+                        fail(f"equivariance-scale-{m}{tk}", "scale(a x + b) != |a| scale(x)" + (" on small-amplitude data (an absolute threshold in the estimator?)" if tiny else ""),
+                             dict(mbase, scale_x=tolist(rk), scale_y=tolist(ry)))
+                if not live:
                     continue
-                sa = abs(a) * max(sx_spread, 1e-300)
-                # zero / negligible scales: absolute slack relative to the spread of the data; diffcov is the square root of
-                # a signed sum, so its absolute error is sqrt(eps) x spread
-                atol_s = (1e-6 if m == "diffcov" else 1e-11) * (sa + abs(b) + abs(a) * float(np.max(np.abs(x))))
-                ok = ry.shape == rk.shape and bool(np.all(np.abs(ry - abs(a) * rk) <= atol_s + RT_SCALE * abs(a) * np.abs(rk)))
-                if not ok and m == "doublemad" and a < 0 and ry.shape == rk.shape:
-                    loc = np.asarray(stats.estimate_loc(x, "median", axis, keepdims=True))
-                    off = np.abs(ry - abs(a) * rk) > atol_s + RT_SCALE * abs(a) * np.abs(rk)
-                    key = KEY_DM[0] if bool(np.all((x == loc)[off])) else "equivariance-scale-doublemad"
-                    fail(key, "doublemad: scale(a x + b) != |a| scale(x) (a < 0; at samples equal to the median)" if key == KEY_DM[0]
-                         else "scale(a x + b) != |a| scale(x)", dict(base, scale_x=tolist(rk), scale_y=tolist(ry)))
-                elif not ok:
-                    fail(f"equivariance-scale-{m}", "scale(a x + b) != |a| scale(x)", dict(base, scale_x=tolist(rk), scale_y=tolist(ry)))
                 # ---- Z-scores ---------------------------------------------------------------------------------------------
+                # lanes (doublemad: samples) exempt from the sign relation: zero scale (the property prescribes the unit-scale fallback there,
+                # under which z(a x + b) = a z(x): demanded below) and ill-conditioned diffcov lanes
+                mask = np.ones(shape, dtype=bool)
+                zero_lanes = []
+                for (pos, l), le in zip(lanes, lane_est):
+                    sp = spread(l)
+                    lane_scale = np.asarray(le, dtype=np.float64)
+                    degenerate_lane = bool(np.all(lane_scale <= 1e-6 * max(sp, 1e-300))) or sp == 0.0
+                    illcond = m == "diffcov" and diffcov_kappa(l) > 10.0
+                    if m == "doublemad" and not degenerate_lane:
+                        # one scale per sample: the unit-scale fallback applies sample by sample
+                        sel, vals = put_lane(shape, axis, pos, (lane_scale > 1e-6 * sp).astype(float))
+                        mask[sel] = np.asarray(vals, dtype=bool) if np.ndim(mask[sel]) else bool(vals)
+                    if degenerate_lane or illcond:
+                        sel, _ = put_lane(shape, axis, pos, np.zeros(l.shape))
+                        mask[sel] = False
+                        zero_lanes.append((degenerate_lane, illcond))
                 for lm in LOCS + ["norm"]:
                     zbase = dict(base, loc_method=lm)
                     try:
                         zx = stats.estimate_zscore(x, lm, m, axis)
-                        zy = stats.estimate_zscore(y, lm, m, axis)
                     except Exception as e:  # noqa: BLE001
                         key = f"keepdims-squeeze-{m}" if (m in ("mad", "iqr") and 1 in shape) else f"exception-zscore-{m}"
                         fail(key, f"estimate_zscore raised {type(e).__name__}: {e}", zbase)
                         continue
                     R.evals += 1
-                    dzx, dzy = np.asarray(zx.data, dtype=np.float64), np.asarray(zy.data, dtype=np.float64)
-                    if dzx.shape != tuple(shape) or not np.all(np.isfinite(dzx)) or not np.all(np.isfinite(dzy)):
+                    dzx = np.asarray(zx.data, dtype=np.float64)
+                    if dzx.shape != tuple(shape) or not np.all(np.isfinite(dzx)):
                         fail(f"finite-zscore-{m}", "Z-scores of finite data are not finite (or have the wrong shape)",
                              dict(zbase, z=tolist(dzx)[:40]))
                         continue
+                    for dl, ic in zero_lanes:
+                        bump("zscore-lane-skipped-" + ("zero-scale" if dl else "illconditioned"))
                     # a zero scale estimate falls back to unit scale: on a lane whose 1-D estimate is exactly zero (a constant lane; IQR / Qn / Sn
                     # of heavily tied data) the Z-scores are the deviations themselves.  x is exact in float32, loc is rounded to it
+                    fired = []
+                    want_loc = np.zeros(shape)
                     for (pos, l), le in zip(lanes, lane_est):
+                        loc_l = 0.0 if lm == "norm" else float(np.median(l) if lm == "median" else np.mean(l))
+                        sel, lv = put_lane(shape, axis, pos, np.full(l.shape, loc_l))
+                        want_loc[sel] = lv
                         if not bool(np.all(np.asarray(le) == 0.0)):
                             continue
-                        loc_l = 0.0 if lm == "norm" else float(np.median(l) if lm == "median" else np.mean(l))
                         sel, want = put_lane(shape, axis, pos, l - loc_l)
-                        R.hist["zero-scale-lanes-checked"] = R.hist.get("zero-scale-lanes-checked", 0) + 1
-                        if not bool(np.all(np.abs(dzx[sel] - want) <= 4 * float(np.finfo(np.float32).eps) * (1.0 + float(np.max(np.abs(l)))))):
+                        fired.append((pos, l, sel, want))
+                        bump("zero-scale-lanes-checked")
+                        if not bool(np.all(np.abs(dzx[sel] - want) <= 4 * EPS32 * (amp + float(np.max(np.abs(l)))))):
                             fail(KEY_SN if (m == "sn" and lanes_bad) else f"zero-scale-zscore-{m}",
                                  "the scale estimate of a lane is zero but its Z-scores are not (x - loc) / 1 (unit-scale fallback)",
                                  dict(zbase, lane=list(pos), z=tolist(dzx[sel])[:20], expected=tolist(want)[:20]))
-                    if lm == "norm":
-                        continue       # no location: finiteness, shape and the zero-scale fallback are all that is demanded
-                    # per-axis == per-lane
+                    # ---- the other two fields of the result: the location subtracted and the divisor used, in a layout that broadcasts
+                    # against the data; the divisor is the per-lane scale estimate, and 1 where that estimate is zero ---------------------------
+                    if not lanes_bad:
+                        try:
+                            got_loc = np.broadcast_to(np.asarray(zx.loc, dtype=np.float64), shape)
+                            got_sc = np.broadcast_to(np.asarray(zx.scale, dtype=np.float64), shape)
+                        except ValueError:
+                            fail(f"zscore-fields-{m}", "ZScoreResult.loc / .scale do not broadcast against the data",
+                                 dict(zbase, loc_shape=list(np.shape(zx.loc)), scale_shape=list(np.shape(zx.scale))))
+                        else:
+                            bump("zscore-fields-checked")
+                            if not close(got_loc, want_loc, RT_LANE, atol):
+                                fail(f"zscore-loc-{lm}", "ZScoreResult.loc is not the location of each lane (0 for 'norm')",
+                                     dict(zbase, got=tolist(zx.loc)[:40], expected=tolist(want_loc)[:40]))
+                            want_div = np.where(want_scale == 0.0, 1.0, want_scale)
+                            if not close(got_sc, want_div, RT_SCALE, atol):
+                                fail(KEY_SN if m == "sn" else f"zscore-divisor-{m}",
+                                     "ZScoreResult.scale is not the scale estimate of each lane, with 1 where that estimate is zero",
+                                     dict(zbase, got=tolist(zx.scale)[:40], expected=tolist(want_div)[:40]))
+                    # ---- per-axis == per-lane (every location method, 'norm' included) ---------------------------------------
                     full = np.empty(shape)
                     lane_ok = True
                     for pos, l in lanes:
                         try:
                             zl = np.asarray(stats.estimate_zscore(l.copy(), lm, m, 0).data, dtype=np.float64)
-                        except Exception:  # noqa: BLE001
+                        except Exception as e:  # noqa: BLE001
                             lane_ok = False
+                            fail(f"exception-zscore-1d-{m}", f"estimate_zscore of one lane as a 1-D array raised {type(e).__name__}: {e} "
+                                 "(the call on the whole array did not)", dict(zbase, lane=list(pos)))
                             break
                         sel, vals = put_lane(shape, axis, pos, zl)
                         full[sel] = vals
                     if lane_ok and not bool(np.all(np.abs(dzx - full) <= 1e-5 * (1.0 + np.abs(full)))):
                         key = KEY_SN if m == "sn" else f"lanes-zscore-{m}"
                         fail(key, "Z-scores along the axis differ from the Z-scores of each lane", dict(zbase, got=tolist(dzx)[:60], expected=tolist(full)[:60]))
-                    # sign(a)-equivariance, where the scale is not (numerically) zero and the estimator is well conditioned
-                    mask = np.ones(shape, dtype=bool)
-                    for (pos, l), le in zip(lanes, lane_est):
-                        sp = spread(l)
-                        lane_scale = np.asarray(le, dtype=np.float64)
-                        degenerate_lane = bool(np.all(lane_scale <= 1e-6 * max(sp, 1e-300))) or sp == 0.0
-                        illcond = m == "diffcov" and diffcov_kappa(l) > 10.0
-                        if m == "doublemad" and not degenerate_lane:
-                            # one scale per sample: the unit-scale fallback applies sample by sample
-                            sel, vals = put_lane(shape, axis, pos, (lane_scale > 1e-6 * sp).astype(float))
-                            mask[sel] = np.asarray(vals, dtype=bool) if np.ndim(mask[sel]) else bool(vals)
-                        if degenerate_lane or illcond:
-                            sel, _ = put_lane(shape, axis, pos, np.zeros(l.shape))
-                            mask[sel] = False
-                            R.hist["zscore-lane-skipped-" + ("zero-scale" if degenerate_lane else "illconditioned")] = \
-                                R.hist.get("zscore-lane-skipped-" + ("zero-scale" if degenerate_lane else "illconditioned"), 0) + 1
-                    dev = np.abs(dzy - np.sign(a) * dzx)
-                    bad = mask & (dev > RT_Z * (1.0 + np.abs(dzx)))
-                    if bool(np.any(bad)):
-                        if m == "doublemad":
-                            loc = np.asarray(stats.estimate_loc(x, "median", axis, keepdims=True))
-                            key = KEY_DM[1] if (a < 0 and bool(np.all((x == loc)[bad]))) else "equivariance-zscore-doublemad"
-                        elif lanes_bad:
-                            key = KEY_SN if m == "sn" else f"lanes-scale-{m}"     # the scale used is not the lane's: same defect
-                        else:
-                            key = f"equivariance-zscore-{m}"
-                        fail(key, "zscore(a x + b) != sign(a) zscore(x)", dict(zbase, z_x=tolist(dzx[bad])[:10], z_y=tolist(dzy[bad])[:10]))
+                    # ---- the Z-scores of a x + b -------------------------------------------------------------------------------
+                    for a_, b_, y in live:
+                        ybase = dict(zbase, a=a_, b=b_)
+                        try:
+                            zy = stats.estimate_zscore(y, lm, m, axis)
+                        except Exception as e:  # noqa: BLE001
+                            key = f"keepdims-squeeze-{m}" if (m in ("mad", "iqr") and 1 in shape) else f"exception-zscore-{m}"
+                            fail(key, f"estimate_zscore(a x + b) raised {type(e).__name__}: {e}", ybase)
+                            continue
+                        R.evals += 1
+                        dzy = np.asarray(zy.data, dtype=np.float64)
+                        if dzy.shape != tuple(shape) or not np.all(np.isfinite(dzy)):
+                            fail(f"finite-zscore-{m}", "Z-scores of finite data are not finite (or have the wrong shape)",
+                                 dict(ybase, z=tolist(dzy)[:40]))
+                            continue
+                        if lm == "norm" and b_ != 0.0:
+                            continue       # no location is subtracted: only a pure scaling commutes with the Z-scores
+                        # zero-scale lanes: unit scale on both sides, so z(a x + b) = a z(x) = a (x - loc).  (Ties of x are ties of a x + b, so the
+                        # estimate is exactly zero there too.)  Each of y, its location and loc(x) is rounded to float32 once
+                        for pos, l, sel, want in fired:
+                            if m == "diffcov" and spread(l) != 0.0:
+                                continue   # a covariance that cancels to exactly 0 on x is rounding noise on a x + b: the ill-conditioned lanes exempted above
+                            bump("zero-scale-lanes-checked-mapped")
+                            slack = 4 * EPS32 * (abs(b_) + abs(a_) * (amp + float(np.max(np.abs(l)))))
+                            if not bool(np.all(np.abs(dzy[sel] - a_ * want) <= slack + 1e-6 * np.abs(a_ * want))):
+                                fail(KEY_SN if (m == "sn" and lanes_bad) else f"zero-scale-zscore-mapped-{m}",
+                                     "the scale estimate of a lane is zero but the Z-scores of a x + b are not a (x - loc) (unit-scale fallback on both sides)",
+                                     dict(ybase, lane=list(pos), z=tolist(dzy[sel])[:20], expected=tolist(a_ * want)[:20]))
+                        # sign(a)-equivariance, where the scale is not (numerically) zero and the estimator is well conditioned
+                        dev = np.abs(dzy - np.sign(a_) * dzx)
+                        bad = mask & (dev > RT_Z * (1.0 + np.abs(dzx)))
+                        if bool(np.any(bad)):
+                            if m == "doublemad":
+                                loc = np.asarray(stats.estimate_loc(x, "median", axis, keepdims=True))
+                                key = KEY_DM[1] if (a_ < 0 and bool(np.all((x == loc)[bad]))) else "equivariance-zscore-doublemad" + tk
+                            elif lanes_bad:
+                                key = KEY_SN if m == "sn" else f"lanes-scale-{m}"     # the scale used is not the lane's: same defect
+                            else:
+                                key = f"equivariance-zscore-{m}{tk}"
+                            fail(key, "zscore(a x + b) != sign(a) zscore(x)", dict(ybase, z_x=tolist(dzx[bad])[:10], z_y=tolist(dzy[bad])[:10]))
+        # ---- scale method 'norm' (unit scale): the Z-scores are the deviations from the location, for every location method -----
+        for axis in axes:
+            for lm in LOCS + ["norm"]:
+                nbase = {"shape": list(shape), "kind": kind, "method": "norm", "loc_method": lm, "axis": axis, "x": tolist(x)}
+                R.case((ci, "norm", lm, axis), nontrivial=not kind.endswith("const"), regime=f"norm/axis={axis}" + tk)
+                try:
+                    zn = stats.estimate_zscore(x, lm, "norm", axis)
+                    dzn = np.asarray(zn.data, dtype=np.float64)
+                    one = np.broadcast_to(np.asarray(zn.scale, dtype=np.float64), shape)
+                except Exception as e:  # noqa: BLE001
+                    fail("exception-zscore-norm", f"estimate_zscore(scale_method='norm') raised {type(e).__name__}: {e}", nbase)
+                    continue
+                want = np.empty(shape)
+                for pos, l in lanes_of(x, axis):
+                    loc_l = 0.0 if lm == "norm" else float(np.median(l) if lm == "median" else np.mean(l))
+                    sel, vals = put_lane(shape, axis, pos, l - loc_l)
+                    want[sel] = vals
+                if dzn.shape != tuple(shape) or not bool(np.all(one == 1.0)) or not bool(np.all(np.abs(dzn - want) <= 4 * EPS32 * (amp + xmax))):
+                    fail("zscore-norm-scale", "with scale_method='norm' the Z-scores are not (x - loc) / 1 of each lane",
+                         dict(nbase, got=tolist(dzn)[:40], expected=tolist(want)[:40]))
         # ---- location estimators: per-axis == per-lane, and broadcast ------------------------------------------------
         for lm in LOCS:
             for axis in axes:
+                lbase = {"shape": list(shape), "kind": kind, "axis": axis, "x": tolist(x)}
                 try:
                     r = np.asarray(stats.estimate_loc(x, lm, axis), dtype=np.float64)
                     rk = np.asarray(stats.estimate_loc(x, lm, axis, keepdims=True), dtype=np.float64)
                     exp = np.array([float(stats.estimate_loc(l.copy(), lm)) for _, l in lanes_of(x, axis)])
                     bro = np.broadcast_to(rk, shape)
                 except Exception as e:  # noqa: BLE001
-                    fail(f"exception-loc-{lm}", f"estimate_loc raised {type(e).__name__}: {e}", {"shape": list(shape), "axis": axis, "x": tolist(x)})
+                    fail(f"exception-loc-{lm}", f"estimate_loc raised {type(e).__name__}: {e}", lbase)
                     continue
                 R.evals += 1
-                atol = 1e-12 * (1.0 + float(np.max(np.abs(x))))
                 if r.size != exp.size or not close(r.ravel(), exp, RT_LANE, atol) or bro.shape != tuple(shape):
                     fail(f"lanes-loc-{lm}", "estimate_loc along the axis differs from the 1-D estimator of each lane",
-                         {"shape": list(shape), "axis": axis, "x": tolist(x), "got": tolist(r), "expected": tolist(exp)})
+                         dict(lbase, got=tolist(r), expected=tolist(exp)))
+                    continue
+                lane_shape = () if (axis is None or len(shape) == 1) else (shape[1 - axis],)
+                if r.shape != lane_shape and not (r.size == 1 and r.shape == ()):
+                    fail(f"shape-loc-{lm}", "keepdims=False location does not have the shape of the per-lane results",
+                         dict(lbase, got_shape=list(r.shape), expected_shape=list(lane_shape)))
+                # keepdims=True: every sample reads the location of its own lane
+                full = np.empty(shape)
+                for (pos, l), le in zip(lanes_of(x, axis), exp):
+                    sel, vals = put_lane(shape, axis, pos, np.full(l.shape, float(le)))
+                    full[sel] = vals
+                if not close(bro, full, RT_LANE, atol):
+                    fail(f"broadcast-loc-{lm}", "keepdims=True location, broadcast to the input, is not the per-lane location",
+                         dict(lbase, got=tolist(rk), got_shape=list(rk.shape), expected=tolist(full)))
+                # the location follows the map: loc(a x + b) = a loc(x) + b (what makes the Z-scores of a x + b those of x up to sign)
+                for a_, b_, y in maps:
+                    try:
+                        ly = np.asarray(stats.estimate_loc(y, lm, axis, keepdims=True), dtype=np.float64)
+                    except Exception as e:  # noqa: BLE001
+                        fail(f"exception-loc-{lm}", f"estimate_loc(a x + b) raised {type(e).__name__}: {e}", dict(lbase, a=a_, b=b_))
+                        continue
+                    if ly.shape != rk.shape or not bool(np.all(np.abs(ly - (a_ * rk + b_)) <= 1e-11 * (abs(b_) + abs(a_) * (amp + xmax)))):
+                        fail(f"equivariance-loc-{lm}", "loc(a x + b) != a loc(x) + b", dict(lbase, a=a_, b=b_, loc_x=tolist(rk), loc_y=tolist(ly)))
 
 
 def callers(R, stats):
@@ -365,6 +505,53 @@ def callers(R, stats):
             continue
         if not np.allclose(got, exp, rtol=1e-6, atol=1e-6) or not np.all(np.isfinite(got)):
             R.fail("timeseries-normalise", "TimeSeries.normalise differs from estimate_zscore", {"x": tolist(t)})
+    # a block normalised along either axis, over the whole block and with the default axis (>= 8 samples per lane; channel 3 is constant:
+    # unit-scale fallback along axis 1): the Z-scores of each lane as a 1-D array
+    x = (np.round(nrng.normal(0, 4, (8, 16)) * 16) / 16).astype(np.float32)
+    x[3, :] = 2.5
+    hdr = Header(filename="c15.fil", data_type="filterbank", nchans=8, foff=-1.0, fch1=1500.0, nbits=32, tsamp=1e-3, tstart=60000.0, nsamples=16)
+    for axis in (0, 1, None, "default"):
+        for lm, sm in (("mean", "std"), ("median", "mad"), ("median", "iqr")):
+            case = {"nchans": 8, "loc": lm, "scale": sm, "axis": axis, "x": tolist(x)}
+            R.case(("block-axis", axis, lm, sm), regime="FilterbankBlock.normalise")
+            try:
+                blk = FilterbankBlock(x.copy(), hdr)
+                got = np.asarray((blk.normalise(lm, sm) if axis == "default" else blk.normalise(lm, sm, axis)).data)
+                if axis is None:
+                    exp = np.asarray(stats.estimate_zscore(x.ravel(), lm, sm, 0).data).reshape(x.shape)
+                elif axis == 0:
+                    exp = np.stack([stats.estimate_zscore(x[:, j], lm, sm, 0).data for j in range(x.shape[1])], axis=1)
+                else:
+                    exp = np.stack([stats.estimate_zscore(x[i], lm, sm, 0).data for i in range(x.shape[0])])
+            except Exception as e:  # noqa: BLE001
+                R.fail("exception-block-normalise", f"FilterbankBlock.normalise raised {type(e).__name__}: {e}", case)
+                continue
+            if got.shape != x.shape or not np.all(np.isfinite(got)) or not np.allclose(got, exp, rtol=1e-5, atol=1e-5):
+                R.fail("block-normalise-axis", "FilterbankBlock.normalise along the axis (default: 1) differs from the Z-scores of each lane", case)
+    # the RFI masks threshold |Z| (double MAD; IQR of lagged differences): |Z| is unchanged by x -> a x + b, so the mask is.  a is a power of two
+    # and a x + b is exact in float32, so that every intermediate is scaled exactly and no |Z| crosses the threshold by rounding
+    from sigpyproc.core import rfi
+    v = np.round(nrng.normal(0, 4, 64) * 16) / 16
+    v[[5, 40]] += 300.0
+    v[20] -= 250.0
+    v = v.astype(np.float32)
+    for name, fn in (("doublemad", lambda u: rfi.double_mad_mask(u, 3.0)), ("iqrm", lambda u: rfi.iqrm_mask(u, 3.0, 5))):
+        try:
+            m0 = np.asarray(fn(v.copy()))
+        except Exception as e:  # noqa: BLE001
+            R.fail(f"exception-mask-{name}", f"rfi mask raised {type(e).__name__}: {e}", {"mask": name, "x": tolist(v)})
+            continue
+        for a_, b_ in ((0.25, 3.5), (-0.25, 3.5), (-8.0, -96.0), (-1.0, 0.0)):
+            case = {"mask": name, "a": a_, "b": b_, "x": tolist(v)}
+            R.case(("mask", name, a_, b_), nontrivial=bool(m0.any() and not m0.all()), regime="rfi masks")
+            try:
+                m1 = np.asarray(fn((np.float32(a_) * v + np.float32(b_)).astype(np.float32)))
+            except Exception as e:  # noqa: BLE001
+                R.fail(f"exception-mask-{name}", f"rfi mask raised {type(e).__name__}: {e}", case)
+                continue
+            if m1.shape != m0.shape or not bool(np.all(m1 == m0)):
+                R.fail(f"mask-affine-{name}", "the RFI mask of a x + b is not the mask of x (|Z| must not depend on the units / sign convention of the data)",
+                       dict(case, mask_x=np.flatnonzero(m0).tolist(), mask_y=np.flatnonzero(m1).tolist()))
 
 
 # ------------------------------------------------------------------------------------------------------------
@@ -390,15 +577,16 @@ Import ListNotations. Open Scope Z_scope.
 Definition est := estimate_scale approx_sqrt approx_pi std1 (fun _ => qz 0) cov01 nd_memo.
 Definition zsc := estimate_zscore approx_sqrt approx_pi std1 (fun _ => qz 0) cov01 nd_memo.
 Fixpoint all2 (tol : Qcanon.Qc) (a b : vec) : bool := match a, b with [], [] => true | x :: a', y :: b' => close tol x y && all2 tol a' b' | _, _ => false end.
-Definition same (tol : Qcanon.Qc) (A : nd) (e : list Z * vec) : bool := shape_eqb (shape A) (fst e) && all2 tol (ravel A) (snd e).
+Definition same (tol mul : Qcanon.Qc) (A : nd) (e : list Z * vec) : bool :=
+  shape_eqb (shape A) (fst e) && all2 tol (map (Qcanon.Qcmult mul) (ravel A)) (map (Qcanon.Qcmult mul) (snd e)).
 Inductive call := CScale (m : scale_method) (kd : bool) | CLoc (m : loc_method) (kd : bool) | CZ (l : loc_method) (m : scale_method).
-Definition ok (c : (list Z * vec) * option Z * call * option (list Z * vec)) : bool :=
-  let '(inp, ax, cl, exp) := c in
+Definition ok (c : (list Z * vec) * option Z * call * option (list Z * vec) * Qcanon.Qc) : bool :=
+  let '(inp, ax, cl, exp, mul) := c in
   let A := nd_of_list (fst inp) (snd inp) in
   match cl with
-  | CScale m kd => match est A m ax kd, exp with None, None => true | Some B, Some e => same (qdec 1 9) B e | _, _ => false end
-  | CLoc m kd => match estimate_loc A m ax kd, exp with None, None => true | Some B, Some e => same (qdec 1 9) B e | _, _ => false end
-  | CZ l m => match zsc A l m ax, exp with None, None => true | Some (z, _, _), Some e => same (qdec 1 4) z e | _, _ => false end
+  | CScale m kd => match est A m ax kd, exp with None, None => true | Some B, Some e => same (qdec 1 9) mul B e | _, _ => false end
+  | CLoc m kd => match estimate_loc A m ax kd, exp with None, None => true | Some B, Some e => same (qdec 1 9) mul B e | _, _ => false end
+  | CZ l m => match zsc A l m ax, exp with None, None => true | Some (z, _, _), Some e => same (qdec 1 4) mul z e | _, _ => false end
   end.
 """
 
@@ -410,7 +598,8 @@ def correspondence(R, stats):
     nrng = np.random.default_rng(rng.randrange(2 ** 32))
     cases, meta = [], []
 
-    def add(x, axis, call, fn, what):
+    def add(x, axis, call, fn, what, mul="(qz 1)"):
+        # mul: both sides are multiplied by it before the comparison (`close` has an absolute part: |x - y| <= tol (1 + |y|))
         ax = "None" if axis is None else f"(Some {axis})"
         with warnings.catch_warnings():
             warnings.simplefilter("ignore")
@@ -421,7 +610,7 @@ def correspondence(R, stats):
                     return
             except Exception:  # noqa: BLE001
                 exp = "None"
-        cases.append(f"(({zl(x.shape)}, {qlist(x.ravel())}), {ax}, {call}, {exp})")
+        cases.append(f"(({zl(x.shape)}, {qlist(x.ravel())}), {ax}, {call}, {exp}, {mul})")
         meta.append(dict(what, shape=list(x.shape), axis=axis, x=tolist(x), impl=exp[:200]))
 
     for shape in shapes:
@@ -454,6 +643,32 @@ def correspondence(R, stats):
                                   ("mean", "doublemad"), ("median", "sn"), ("mean", "gapper"), ("median", "norm")):
                         add(x, axis, f"CZ {COQ_LOC[lm]} {COQ_SCALE[m]}", lambda: stats.estimate_zscore(x, lm, m, axis).data,
                             {"call": "estimate_zscore", "loc": lm, "scale": m})
+    # small-amplitude data (multiples of 2**-32): locations and scales are compared in units of 2**-30, so that the 1e-9 of `close` is
+    # relative to the data.  The generated definitions read the zero-MAD test of mad / doublemad as `= 0`; an implementation that decides
+    # it with an absolute threshold (np.isclose(mad, 0): 1e-8, repaired by 35a5e4f) returns the mean-deviation fallback here and differs
+    up = "(qz 1073741824)"
+    for shape in [(9,), (8, 9)] + ([] if quick else [(16,), (9, 8)]):
+        n = int(np.prod(shape))
+        for kind in (0, 3):
+            x = nrng.integers(-8, 9, n) / 4.0
+            if kind == 3:
+                x[nrng.integers(0, n)] += 4096.0
+            x = (x * 2.0 ** -30).reshape(shape).astype(np.float64)
+            axes = [None, 0] if len(shape) == 1 else [None, 0, 1]
+            for axis in axes:
+                for m in COQ_SCALE:
+                    if m == "norm":
+                        continue
+                    for kd in (False, True):
+                        add(x, axis, f"CScale {COQ_SCALE[m]} {'true' if kd else 'false'}",
+                            lambda: stats.estimate_scale(x, m, axis, keepdims=kd), {"call": "estimate_scale", "method": m, "keepdims": kd, "amplitude": "2**-30"}, up)
+                for lm in LOCS:
+                    add(x, axis, f"CLoc {COQ_LOC[lm]} true", lambda: stats.estimate_loc(x, lm, axis, keepdims=True),
+                        {"call": "estimate_loc", "method": lm, "amplitude": "2**-30"}, up)
+                if kind == 0:
+                    for lm, m in (("median", "mad"), ("mean", "doublemad"), ("median", "doublemad"), ("median", "iqr"), ("mean", "std")):
+                        add(x, axis, f"CZ {COQ_LOC[lm]} {COQ_SCALE[m]}", lambda: stats.estimate_zscore(x, lm, m, axis).data,
+                            {"call": "estimate_zscore", "loc": lm, "scale": m, "amplitude": "2**-30"})
     per = 120
     shards = [(i, cases[i:i + per]) for i in range(0, len(cases), per)]
 
@@ -541,8 +756,9 @@ def run(R: vlib.Run):
     R.rule = ("shapes 1-D (8..64) and 2-D (8x8..16x9, plus 1xN / Nx1 with the reduced axis >= 8) x data kinds {normal, ties, >50% ties, "
               "constant, heavy outliers, skewed; 2-D: one constant lane (first / middle / last, along either axis) among non-constant ones}, "
               "multiples of 1/16 x one affine map per array with 1e-2 <= |a| <= 1e2 (30% exact powers of two, "
-              "both signs, offsets up to ~10 |a| sigma) x 9 scale methods x axis in {None, 0, 1} x {median, mean, norm}.  A case = (array, "
-              "method, axis); non-trivial unless the data are constant; distinct by (array index, method, axis)")
+              "offsets up to ~10 |a| sigma), applied as (a, b) and as (-a, b) x 9 scale methods (+ 'norm') x axis in {None, 0, 1} x {median, mean, norm}; "
+              "plus small-amplitude arrays (the same kinds in units of 2**-24, |a| = 2**-4 .. 2**-6: every scale of a x + b is below 1e-8).  "
+              "A case = (array, method, axis); non-trivial unless the data are constant; distinct by (array index, method, axis)")
     R.trusted += [
         "Coq 8.16.1 kernel + vm_compute (refutation witnesses, Examples, the Coq side of the correspondence)",
         "Model/C15_np.v: the reading of NumPy (reductions along an axis, keepdims, broadcasting, squeeze / expand_dims, percentile 'linear', "
@@ -557,7 +773,11 @@ def run(R: vlib.Run):
         "scale is zero are exempt from the Z-score sign relation (the fallback to unit scale is what the property prescribes there)",
     ]
     R.assume += ["NumPy / astropy compute what their documentation says on each lane (np.median, np.percentile, np.partition, np.cov, biweight_scale)",
-                 "arrays are not empty and lanes have >= 8 samples (the property's quantifier); a tuple of axes is outside the modelled domain"]
+                 "arrays are not empty and lanes have >= 8 samples (the property's quantifier); a tuple of axes is outside the modelled domain",
+                 "sample values and their images a x + b are representable in float32 up to a relative 6e-8 of the scale of the data, i.e. "
+                 "|b| + |a| max|x| <= ~1e2 x |a| x scale(x) for the Z-score relations (offsets |b| <= ~30 |a| sigma are generated): estimate_zscore "
+                 "casts its input to float32, so an offset that uses up the 24-bit mantissa (|b| >= 2**24 quanta of the data) turns a x + b "
+                 "into ties and its Z-scores are no longer those of x; estimate_scale / estimate_loc (float64) are not subject to this bound"]
     prove(R)
     R.need(["Gen/Stats.vo", "Model/C15_np.vo"])
     correspondence(R, stats)
@@ -574,7 +794,7 @@ def run(R: vlib.Run):
 # 2**24 elements with more than 16384 samples per channel, float32 / float64 / uint8 inputs, values whose squares overflow float32.
 # The reference is written lane-wise in float64 from the definitions (never by calling sigpyproc).
 # ------------------------------------------------------------------------------------------------------------
-SCALE_KINDS = ["normal", "heavyties", "outliers", "ties", "skewed", "u8sat", "big"]
+SCALE_KINDS = ["normal", "heavyties", "outliers", "ties", "skewed", "u8sat", "big", "tiny"]
 S_FAST = ["std", "iqr", "mad", "doublemad", "diffcov", "biweight", "gapper"]      # O(n) / O(n log n) in the lane length
 S_PAIR = ["qn", "sn"]                                                              # O(n^2) tables
 S_VEC = ["std", "iqr", "mad", "doublemad", "biweight"]                             # no Python-level lane loop
@@ -606,6 +826,11 @@ def scale_data(seed, shape, kind, dtype="float32", const_lanes=()):
         x = np.clip(np.round(z * 80 + 128), 0, 255)
     elif kind == "big":            # squares overflow float32, not float64
         x = z * np.float32(1e30)
+    elif kind == "tiny":           # "outliers" in units of 2**-24 (exact in float32): every scale is far below 1e-8 after a map with |a| = 2**-5
+        x = np.round(z * 1024) / 1024
+        idx = g.choice(L * n, max(1, (L * n) // 10), replace=False)
+        x[idx] += (g.choice(np.array([-1.0, 1.0], dtype=np.float32), idx.size) * g.integers(100, 2000, idx.size)).astype(np.float32)
+        x = x * np.float32(TINY)
     else:
         raise ValueError(kind)
     del z
@@ -684,7 +909,7 @@ def _r_scale(X, m):
     if m == "mad":
         A = np.abs(X - _r_median(X)[:, None])
         mad = _r_median(A) / norm
-        zero = np.abs(mad) <= 1e-8
+        zero = mad == 0          # the fallback is decided exactly (35a5e4f); an absolute threshold would not be unit free
         if zero.any():
             mad[zero] = A[zero].sum(axis=1) / n / norm_aad
         return mad
@@ -695,7 +920,7 @@ def _r_scale(X, m):
         for sel in (X <= med, X >= med):
             md, mean = _r_side(A, sel)
             md = md / norm
-            out.append(np.where(np.abs(md) <= 1e-8, mean / norm_aad, md)[:, None])
+            out.append(np.where(md == 0, mean / norm_aad, md)[:, None])
         return np.where(X < med, out[0], np.where(X > med, out[1], 0.5 * (out[0] + out[1])))
     if m == "diffcov":
         d = np.diff(X, axis=1)
@@ -767,6 +992,7 @@ def _s_one(R, stats, seed, L, n, kind, mode, methods, locs=("mean", "median"), d
     X64 = X.astype(np.float64)
     spread_l = np.max(np.abs(X64 - _r_median(X64)[:, None]), axis=1)
     amax = float(np.max(np.abs(X64)))
+    amp = TINY if kind == "tiny" else 1.0          # the unit of the data: absolute slacks are relative to it
     for m in methods:
         got_x = None
         for vname, V, fac in variants:
@@ -775,7 +1001,7 @@ def _s_one(R, stats, seed, L, n, kind, mode, methods, locs=("mean", "median"), d
             inp = inp_of(V)
             V64 = X64 if vname == "x" else V.astype(np.float64)
             ref = _r_scale(V64, m)
-            atol = 1e-12 * (1.0 + amax * fac) + (1e-6 * fac * lay(spread_l) if m == "diffcov" else 0.0)
+            atol = 1e-12 * (amp + amax * fac) + (1e-6 * fac * lay(spread_l) if m == "diffcov" else 0.0)
             exp = lay(ref)
             exp_shape = inp.shape if m == "doublemad" else (() if L == 1 else (L,))
             # ---- estimate_scale -----------------------------------------------------------------------------------------
@@ -865,7 +1091,7 @@ def _s_one(R, stats, seed, L, n, kind, mode, methods, locs=("mean", "median"), d
                 R.fail(f"scale-exception-loc-{lm}", f"estimate_loc raised at scale: {type(e).__name__}: {str(e)[:120]}", c)
                 continue
             R.evals += 1
-            if r.shape != exp.shape or not bool(np.all(np.abs(r - exp) <= 1e-12 * (1.0 + amax) + S_RT * np.abs(exp))):
+            if r.shape != exp.shape or not bool(np.all(np.abs(r - exp) <= 1e-12 * (amp + amax) + S_RT * np.abs(exp))):
                 R.fail(f"scale-loc-{lm}", "estimate_loc at scale differs from the float64 mean / median of each lane", dict(c, got_shape=list(r.shape)))
     del X, X64
 
@@ -953,6 +1179,8 @@ def scale(R: vlib.Run):
     go(1, M18 - 1, "skewed", "flat", S_FAST, locs=("median",))
     go(1, M18, "normal", "flat", S_FAST, locs=("mean",), dtype="float64")
     go(1, M18 + 1, "ties", "flat", S_FAST, affine=(0.25, -77.5))
+    go(1, M16 + 3, "tiny", "flat", S_FAST, locs=("median",), affine=(-2.0 ** -5, 0.0))        # small amplitudes: the estimators are unit free
+    go(1025, 64, "tiny", "axis1", S_VEC + ["qn"], locs=("mean",), const_lanes=(0, 512), affine=(2.0 ** -6, 3.0 * 2.0 ** -24), both=False)
     go(1, M20 - 1, "skewed", "flat", ["std", "mad", "diffcov", "gapper"], locs=("mean",), both=False)
     go(1, M20, "normal", "flat", ["iqr", "doublemad", "biweight"], locs=("median",), dtype="float64", both=False)
     go(1, M20 + 1, "outliers", "flat", S_FAST)
